@@ -200,4 +200,22 @@ CLAIMED['C17'] = dict(
     technique='Lean 4 refinement proof of the batcher loop + leaf-order monitor + differential correspondence',
 )
 
+CLAIMED['C11'] = dict(
+    text='Theorems (Props/C11.lean) about the model\'s processor/resource functions for every world with the C09 invariant: the '
+         'resource part of acceptance succeeds iff everything declared fits, then holds EXACTLY the positive declared amounts '
+         '(new reservation, usage grows by exactly those amounts) and otherwise takes nothing and registers exactly one waiting '
+         'request (with an availability check queued); a part is accepted by a resource-declaring processor only while holding '
+         'the declared amounts (ProcInv preserved by its own operations); a failure gives everything back (usage drops by exactly '
+         'the holdings); a maintenance shutdown and the restore leave reservation and pools unchanged; finishing a part while '
+         'holding queues a live RELEASE event for the current instant, which by C01 runs before the clock advances but after a '
+         'same-instant PASS_PART (priority facts regenerated from the source), and releases iff the machine is idle or down; '
+         'pool usage = sum of the holdings of the processors holding reservations (+ reservations made by scripts), with the '
+         'ownership invariant preserved by acquisition, release, failure, maintenance and hand-over. NOT proved: the global '
+         'clause "whenever time advances no idle operational processor holds resources" as an invariant of the whole event loop '
+         '(its local ingredients are proved) - checked by the monitor at every clock advance and by correspondence on the '
+         'pool-heavy and maintenance-dense families.',
+    note=BASE_NOTE + ' Hypotheses: C09 invariant, request dictionaries with distinct keys and non-negative amounts.',
+    technique='Lean 4 theorems over the processor/resource functions (reusing C09/C01) + monitor + differential correspondence',
+)
+
 NOT_CLAIMED = {}
